@@ -74,6 +74,37 @@ func vBatchOpenClose(id bin.Bin128, data []byte) pmpx.Message {
 	return m
 }
 
+// X1: the exported closed context (what rpc hands out from Channel.Context() after the channel was freed).
+func init() {
+	vexp.Register(&vexp.Scenario{
+		Name: "c20.X1.closed-context-listener", Prop: "C20",
+		Bounds: func(bool) vexp.Bounds { return vexp.Bounds{} },
+		Doc:    "ClosedContext(): Conn() must answer, a disconnect listener registered on it must be refused (registration reports 'already closed') and never run, the disconnected flag must be set, nothing panics",
+		Body: func(x *vexp.Ctx) {
+			calls := 0
+			pn, _ := func() (p any, _ int) {
+				defer func() { p = recover() }()
+				cc := ClosedContext().Conn()
+				_, ok := cc.OnDisconnected(func() { calls++ })
+				if ok {
+					x.Fail("a listener registered on the closed context is accepted", "registration reported success")
+				}
+				if !cc.Disconnected().IsSet() {
+					x.Fail("the closed context does not report Disconnected", "flag unset although OnDisconnected says already closed")
+				}
+				return nil, 0
+			}()
+			if pn != nil {
+				x.Fail("registering a disconnect listener on the closed context panics", "%v", pn)
+			}
+			if calls != 0 {
+				x.Fail("listener called although registration reported 'already closed'", "calls=%d", calls)
+			}
+			x.Outcome = fmt.Sprintf("panic=%v", pn != nil)
+		},
+	})
+}
+
 // O1: open frames still sitting in the read buffer when the connection is torn down because the SEND loop failed
 // first (the peer sent a burst of opens and went away; the first handler's reply hits a dead socket).
 func init() {
